@@ -8,12 +8,17 @@ use serde_json::{json, Value};
 use std::collections::BTreeMap;
 use std::hash::{Hash, Hasher};
 
-pub const SHAPES: [&str; 11] = ["block-seq", "block-seq-nl", "block-map-nl", "explicit-key", "flow-seq", "flow-map", "flow-alternating", "seq-of-explicit-key", "built-seq", "built-map-value", "built-map-key"];
+pub const SHAPES: [&str; 13] = ["block-seq", "block-seq-nl", "block-map-nl", "explicit-key", "flow-seq", "flow-map", "flow-alternating", "seq-of-explicit-key", "built-seq", "built-map-value", "built-map-key", "block-seq-then-error", "block-seq-no-final-break"];
 pub const APIS: [&str; 9] = ["iter", "push", "load+forget", "load+drop", "drop", "clone", "eq", "hash", "emit"];
 pub const DEPTHS: [usize; 10] = [1, 10, 100, 255, 256, 1000, 2000, 10_000, 30_000, 300_000];
 
 fn applicable(shape: usize, api: usize, depth: usize, tier: Tier) -> bool {
-    let built = shape >= 8;
+    let built = (8..=10).contains(&shape);
+    // the two extra text shapes are only driven through the pull iterator (push/load recurse per
+    // level on any block nesting: known findings of the block-seq shape)
+    if shape >= 11 && api != 0 {
+        return false;
+    }
     // constructed trees exercise the tree operations in isolation; text shapes exercise parsing/loading
     if built != (api >= 4) {
         return false;
@@ -41,7 +46,7 @@ fn applicable(shape: usize, api: usize, depth: usize, tier: Tier) -> bool {
 
 pub fn text_for(shape: usize, d: usize) -> String {
     match shape {
-        0 => format!("{}a", "- ".repeat(d)),
+        0 => format!("{}a\n", "- ".repeat(d)),
         1 => {
             let mut s = String::new();
             for k in 0..d {
@@ -81,7 +86,9 @@ pub fn text_for(shape: usize, d: usize) -> String {
             s.push_str(&close);
             s
         }
-        _ => format!("{}a", "- ? ".repeat(d)),
+        7 => format!("{}a", "- ? ".repeat(d)),
+        11 => format!("{}[", "- ".repeat(d)),
+        _ => format!("{}a", "- ".repeat(d)),
     }
 }
 
@@ -132,7 +139,7 @@ pub fn grid(tier: Tier) -> Vec<(usize, usize, usize)> {
 
 /// Child: runs scenario (shape, api, depth); returns "ok" / "err" or panics.
 fn run_scenario(shape: usize, api: usize, depth: usize) -> &'static str {
-    if shape < 8 {
+    if !(8..=10).contains(&shape) {
         let text = text_for(shape, depth);
         match api {
             0 => {
